@@ -174,6 +174,18 @@ pub fn ring_area2(r: &Ring) -> f64 {
     if n < 3 {
         return 0.0;
     }
+    // integer coordinates: exact in i128 (products of 2^27-sized coordinates do not fit a double; a long thin ring
+    // would otherwise get a wrong or zero area)
+    if r.iter().all(|p| p.0.fract() == 0.0 && p.1.fract() == 0.0 && p.0.abs() < 4.0e18 && p.1.abs() < 4.0e18) {
+        let o = (r[0].0 as i128, r[0].1 as i128);
+        let mut a: i128 = 0;
+        for i in 0..n {
+            let (p, q) = (r[i], r[(i + 1) % n]);
+            let (px, py, qx, qy) = (p.0 as i128 - o.0, p.1 as i128 - o.1, q.0 as i128 - o.0, q.1 as i128 - o.1);
+            a += px * qy - qx * py;
+        }
+        return a as f64;
+    }
     // relative to the first vertex: the sign (and for exact families the value) does not degrade when a small ring
     // lies far from the origin
     let o = r[0];
